@@ -16,6 +16,10 @@ import Mistletoe.Props.C19
 import Mistletoe.Props.C10_Reflow
 import Mistletoe.Props.C06
 import Mistletoe.Props.C12_Shape
+import Mistletoe.Props.C03_Code
+import Mistletoe.Props.C07_Resolve
+import Mistletoe.Props.C10_Lists
+import Mistletoe.Props.C19_EndToEnd
 import Driver.Ast
 open Lean Mistletoe
 
@@ -210,15 +214,127 @@ def c09Lists (j : Json) : Except String Json := do
   let ok := !ts.isEmpty && MdRound.MB.oks nw ts && (k == 0 || lines.all (fun l => !l.contains '\t'))
   pure (Json.mkObj [("ok", Json.bool ok), ("text", Driver.str (Props.C09.quoted k lines).flatten)])
 
+/-- a tree of the C03 fragment with code blocks and setext headings: the kinds of `tree2Of` plus
+    {"k":"fence","ind":n,"delim":…,"info":…,"body":[line…],"close":line} and {"k":"setext","level":n,"lines":[…],"ul":line} -/
+partial def tree3Of (j : Json) : Except String ComposeC.T3 := do
+  let k ← j.getObjValAs? String "k"
+  match k with
+  | "para" => do pure (.para (← (← Driver.getArr j "lines").toList.mapM Driver.asStr))
+  | "heading" => do pure (.heading (← j.getObjValAs? Nat "level") (← Driver.getStr j "text") (← Driver.getStr j "line"))
+  | "hr" => do pure (.hr (← Driver.getStr j "line"))
+  | "quote" => do
+    pure (.quote (← j.getObjValAs? Bool "bare") (← (← Driver.getArr j "kids").toList.mapM tree3Of))
+  | "list" => do
+    let mk ← match (← Driver.getStr j "marker") with
+      | [c] => pure c
+      | _ => throw "marker: one character"
+    let items ← (← Driver.getArr j "items").toList.mapM (fun it => do (← Driver.asArr it).toList.mapM tree3Of)
+    pure (.list (← j.getObjValAs? Bool "ordered") (← j.getObjValAs? Nat "start") mk (← j.getObjValAs? Nat "pad")
+      (← j.getObjValAs? Bool "loose") items)
+  | "fence" => do
+    pure (.fence (← j.getObjValAs? Nat "ind") (← Driver.getStr j "delim") (← Driver.getStr j "info")
+      (← (← Driver.getArr j "body").toList.mapM Driver.asStr) (← Driver.getStr j "close"))
+  | "setext" => do
+    pure (.setext (← j.getObjValAs? Nat "level") (← (← Driver.getArr j "lines").toList.mapM Driver.asStr) (← Driver.getStr j "ul"))
+  | k => throw s!"tree kind {k}"
+
+/-- op "c03.fragment3": {"forest": [tree], "dq", "sq"} → the hypothesis `T3.oks` of `C03_code_html_partial`, the text the
+    writer produces and the HTML the theorem concludes -/
+def c03Fragment3 (j : Json) : Except String Json := do
+  let ts ← (← Driver.getArr j "forest").toList.mapM tree3Of
+  let o : Html.Opts := { dq := (j.getObjValAs? Bool "dq").toOption.getD false, sq := (j.getObjValAs? Bool "sq").toOption.getD false }
+  pure (Json.mkObj [("ok", Json.bool (ComposeC.T3.oks ts && !ts.isEmpty)),
+                    ("text", Driver.str (ComposeC.writes3 ts).flatten),
+                    ("html", Driver.str (ComposeC.htmlOf3 o ts))])
+
+/-- op "c07.resolve": {"defLbl","dest","pre","lbl","post"} → the hypotheses of `C07_shortcut_document_text_partial` (URL-safe
+    destination, `DocText`, the ends of the paragraph line, and the block-phase assumption `blockPhaseIs`, all evaluated), the
+    document text and the HTML the theorem concludes -/
+def c07Resolve (j : Json) : Except String Json := do
+  let defLbl ← Driver.getStr j "defLbl"
+  let dest ← Driver.getStr j "dest"
+  let pre ← Driver.getStr j "pre"
+  let lbl ← Driver.getStr j "lbl"
+  let post ← Driver.getStr j "post"
+  let text := RefResolve.docText defLbl dest pre lbl post
+  match Config.html with
+  | none => throw "Config.html"
+  | some cfg =>
+    let gas := text.length + 20
+    let ok := dest.all RefResolve.urlCh && pre.all RefResolve.textCh && lbl.all RefResolve.textCh && !Py.isBlank lbl
+      && post.all RefResolve.textCh && post.head? != some '('
+      && (match pre.head? with | some c => !pyIsSpace c | none => true)
+      && (match post.getLast? with | some c => !pyIsSpace c | none => true)
+      && RefResolve.blockPhaseIs cfg.block gas (Lines.normalize (.str text))
+          { label := defLbl, dest := dest, title := [], destType := "uri".toList, titleDelim := none }
+          (pre ++ ['['] ++ lbl ++ [']'] ++ post ++ ['\n'])
+    let html := if Footnotes.normalizeLabel defLbl = Footnotes.normalizeLabel lbl
+      then "<p>".toList ++ pre ++ "<a href=\"".toList ++ dest ++ "\">".toList ++ lbl ++ "</a>".toList ++ post ++ "</p>\n".toList
+      else "<p>".toList ++ pre ++ ['['] ++ lbl ++ [']'] ++ post ++ "</p>\n".toList
+    pure (Json.mkObj [("ok", Json.bool ok), ("text", Driver.str text), ("html", Driver.str html)])
+
+/-- a tree of the C10 fragment with lists: {"k":"para","lines":[[word…]…]} or
+    {"k":"list","ordered":b,"start":n,"marker":"-","pad":n,"loose":b,"items":[[tree, …], …]} -/
+partial def ptOf (j : Json) : Except String ReflowList.PT := do
+  let k ← j.getObjValAs? String "k"
+  match k with
+  | "para" => do
+    pure (.para (← (← Driver.getArr j "lines").toList.mapM (fun l => do (← Driver.asArr l).toList.mapM Driver.asStr)))
+  | "list" => do
+    let mk ← match (← Driver.getStr j "marker") with
+      | [c] => pure c
+      | _ => throw "marker: one character"
+    let items ← (← Driver.getArr j "items").toList.mapM (fun it => do (← Driver.asArr it).toList.mapM ptOf)
+    pure (.list (← j.getObjValAs? Bool "ordered") (← j.getObjValAs? Nat "start") mk (← j.getObjValAs? Nat "pad")
+      (← j.getObjValAs? Bool "loose") items)
+  | k => throw s!"tree kind {k}"
+
+/-- op "c10.lists": {"forest": [tree], "L": n, "depth": k, "nw": Bool} → the hypotheses of `C10_list_reflow_quoted_partial`
+    (`oksP nw`, non-empty, 1 ≤ L), the text of the document and the text the theorem says `MarkdownRenderer(max_line_length=L)`
+    returns -/
+def c10Lists (j : Json) : Except String Json := do
+  let ts ← (← Driver.getArr j "forest").toList.mapM ptOf
+  let L ← j.getObjValAs? Nat "L"
+  let k := (j.getObjValAs? Nat "depth").toOption.getD 0
+  let nw := (j.getObjValAs? Bool "nw").toOption.getD false
+  let ok := !ts.isEmpty && ReflowList.oksP nw ts && decide (1 ≤ L)
+  pure (Json.mkObj [("ok", Json.bool ok), ("text", Driver.str (ReflowList.textLQ k ts)),
+                    ("expected", Driver.str (ReflowList.textLQ k (ReflowList.reflows (ReflowQuote.qBudget L k) 0 ts)))])
+
+/-- op "c19.document": {"text", "depth", "omit_title"} → the text parsed by the MODEL under the TocRenderer's token lists, the
+    hypotheses of `C19_text_toc_current` evaluated on the parsed tree (`plainHeadings`, `isOutline`, `titlesPlain`), the
+    headings the theorem says `_headings` holds and the forest the toc list mirrors -/
+def c19Document (j : Json) : Except String Json := do
+  let t ← Driver.getStr j "text"
+  let cfg : Toc.Cfg := { depth := (j.getObjValAs? Nat "depth").toOption.getD 5,
+                          omitTitle := (j.getObjValAs? Bool "omit_title").toOption.getD true }
+  let q : Html.Quotes := ⟨false, false⟩
+  match Config.cfgOf Gen.RenderMaps.tocBlockTokens Gen.RenderMaps.tocSpanTokens with
+  | none => throw "toc configuration"
+  | some pcfg =>
+    match Document.parse pcfg (2 * t.length + 50) t with
+    | .err _ => pure (Json.mkObj [("ok", Json.bool false)])
+    | .ok d =>
+      let hs := Props.C19.expectedHs cfg d
+      let plain := Props.C19.plainHeadings q d
+      let ok := plain && Block.isOutline hs && Props.C19.titlesPlain hs
+      pure (Json.mkObj [("ok", Json.bool ok), ("plain", Json.bool plain),
+        ("headings", Json.arr (hs.map (fun h => Json.arr #[Driver.nat h.1, Driver.str h.2])).toArray),
+        ("forest", forestJson (Block.toForest hs))])
+
 def dispatch (op : String) (j : Json) : Except String Json :=
   match op with
   | "c14.hyps" => c14Hyps j
   | "c03.fragment" => c03Fragment j
   | "c03.fragment2" => c03Fragment2 j
+  | "c03.fragment3" => c03Fragment3 j
+  | "c07.resolve" => c07Resolve j
+  | "c10.lists" => c10Lists j
   | "c09.fragment" => c09Fragment j
   | "c09.fragment2" => c09Fragment2 j
   | "c09.lists" => c09Lists j
   | "c19.outline" => c19Outline j
+  | "c19.document" => c19Document j
   | "c10.reflow" => c10Reflow j
   | "c06.spec" => c06Spec j
   | "c12.shape" => c12Shape j
